@@ -74,6 +74,9 @@ type Exec struct {
 	curThread        int
 	sharedObjs       map[int]bool
 	fatalIsViolation bool
+	sampleBudget     int
+	PathSamples      []interface{}
+	SampleModels     [][]NondetVal
 }
 
 func NewExec(ld *Loaded, sol *Solver, unwind int) *Exec {
@@ -86,7 +89,7 @@ func NewExec(ld *Loaded, sol *Solver, unwind int) *Exec {
 	named.AddMethod(types.NewFunc(token.NoPos, nil, "Error", types.NewSignatureType(recv, nil, nil, sig.Params(), sig.Results(), false)))
 	return &Exec{ld: ld, prog: ld.prog, sol: sol, unwind: unwind, Unsupp: map[string]int{}, seenViol: map[string]bool{}, opaqueErrT: named,
 		maxViol: 40, Reached: map[string]int{}, Funcs: map[string]bool{}, PathEnds: map[string]int{}, params: map[string]int64{}, known: map[string]bool{},
-		maxBytes: 4096, Notes: map[string]int{}, maxPaths: 2000000, srcCache: map[string][]string{}}
+		maxBytes: 4096, sampleBudget: 3, Notes: map[string]int{}, maxPaths: 2000000, srcCache: map[string][]string{}}
 }
 
 func (ex *Exec) fresh(prefix string, w int) *Term { return ex.sol.Fresh(prefix, w) }
@@ -203,7 +206,13 @@ func (ex *Exec) recordViolation(st *State, kind, msg string, ins ssa.Instruction
 	}
 	ex.seenViol[key] = true
 	v := Violation{Kind: kind, Msg: msg, Where: where, Site: site, Harness: ex.harness, Notes: append([]string(nil), st.notes...)}
-	// prefer small buffers in the counterexample (replay needs to allocate them)
+	v.Model, v.HasModel = ex.smallModel(st, cond)
+	ex.Violations = append(ex.Violations, v)
+}
+
+// smallModel returns a model of the path condition (plus cond), preferring small
+// buffers (replay has to allocate them).
+func (ex *Exec) smallModel(st *State, cond *Term) ([]NondetVal, bool) {
 	var lens []*Term
 	for _, nd := range st.nondet {
 		if nd.kind == "bytes" && !nd.lenT.isConst {
@@ -225,15 +234,17 @@ func (ex *Exec) recordViolation(st *State, kind, msg string, ins ssa.Instruction
 			}
 		}
 		r := ex.sol.CheckKeep(cs...)
+		var m []NondetVal
+		ok := false
 		if r == "sat" {
-			v.Model, v.HasModel = ex.model(st)
+			m, ok = ex.model(st)
 		}
 		ex.sol.Pop()
 		if r == "sat" {
-			break
+			return m, ok
 		}
 	}
-	ex.Violations = append(ex.Violations, v)
+	return nil, false
 }
 
 // check a potential panic / assertion. Returns false if the path cannot continue.
@@ -297,6 +308,15 @@ func (ex *Exec) endPath(st *State, kind string) {
 	ex.PathEnds[kind]++
 	if kind == "done" && len(st.events) > 0 {
 		ex.traces = append(ex.traces, st.events)
+	}
+	if kind == "done" && ex.sampleBudget > 0 && ex.noFork == 0 {
+		ex.sampleBudget--
+		{
+			if m, ok := ex.smallModel(st, nil); ok {
+				ex.PathSamples = append(ex.PathSamples, map[string]interface{}{"harness": ex.harness, "path": ex.Paths, "ended": kind, "input_following_this_path": modelString(m)})
+				ex.SampleModels = append(ex.SampleModels, m)
+			}
+		}
 	}
 	if ex.Paths >= ex.maxPaths {
 		ex.stopped = true
